@@ -26,7 +26,7 @@ macro_rules! widths3 {
     };
 }
 widths3!(0, 1, 7, 8, 9, 15, 16, 31, 32, 56, 57, 60, 63, 64, 65, 72, 100, 120, 124, 127, 128, 129, 188, 192,
-    250, 255, 256, 257, 320, 384, 512, 521, 1024, 4096);
+    250, 255, 256, 257, 320, 384, 512, 521, 1024, 4096, 4160);
 
 /// Little-endian base-256 digits of the value, exactly `n` bytes.
 fn le_digits(limbs: &[u64], n: usize) -> Vec<u8> {
